@@ -49,7 +49,7 @@ type Child struct {
 	heldCount  int
 	Reports    int
 
-	Timeout time.Duration
+	Timeout  time.Duration
 	Sessions int
 }
 
@@ -360,7 +360,7 @@ func ClassifyHang(dump string) string {
 			continue
 		}
 
-		first := strings.SplitN(b, "\n", 2)[0]
+		first := strings.SplitN(b, "\n", 2)[0] + "\n" + b + "\n----"
 
 		switch {
 		case strings.Contains(first, "chan receive"), strings.Contains(first, "chan send"),
